@@ -180,6 +180,16 @@ var verifC09Jobs = []string{
           path: x
           key: y
       - run: echo ${{ steps.s1.outputs.cache-hit }} ${{ steps.s1.outputs.nope }}
+`, `
+    runs-on: ubuntu-latest
+    needs: [missing_one]
+    steps:
+      - run: echo ${{ needs.missing_one.outputs.x }}
+`, `
+    runs-on: ubuntu-latest
+    needs: [missing_two, MISSING_THREE]
+    steps:
+      - run: echo
 `,
 }
 
